@@ -15,11 +15,11 @@ def handleAccess (op : String) (a : Args) : String :=
   | "run" =>
     let rgs0 : List RG := (a.list "rgs").map (fun r => (splitTop r).map (·.toNat!))
     let steps := a.list "prog"
-    let sel : Option (List RG) := steps.foldl (fun (acc : Option (List RG)) st =>
-      acc.bind fun rgs => match splitTop st with
-        | ["s", st, sp, k] => some (getSlice rgs (optInt st) (optInt sp) (parseInt k))
-        | ["i", i] => getInt rgs (parseInt i)
-        | _ => some rgs) (some rgs0)
+    let sels : List Sel := steps.filterMap fun st => match splitTop st with
+      | ["s", st, sp, k] => some (Sel.slice (optInt st) (optInt sp) (parseInt k))
+      | ["i", i] => some (Sel.pick (parseInt i))
+      | _ => none
+    let sel : Option (List RG) := runSels rgs0 sels
     match sel with
     | none => "err key"
     | some rgs =>
